@@ -369,10 +369,11 @@ def mon_c01(ix: Index):
             key = (e["path"], e.get("phase"))
             if key not in first_val:
                 first_val[key] = (e.get("val"), e["inv"])
-            elif e.get("oid") in succ and first_val[key][0] != e.get("val"):
+            elif (e.get("oid") in succ or first_val[key][1] == inv) and first_val[key][0] != e.get("val"):
+                # SUCCEEDED when the invocation started, or completed earlier in this very invocation and passed again (branch resumed)
                 n_checked += 1
                 out.append(V("C01", "C01/recorded-value-not-returned/%s" % e.get("opkind"),
-                             "%s was SUCCEEDED at the start of invocation %d but returned %s; when it completed (invocation %d) it delivered %s"
+                             "%s was completed (at the start of invocation %d or earlier in it) but returned %s; when it completed (invocation %d) it delivered %s"
                              % (e["path"], inv, str(e.get("val"))[:60], first_val[key][1], str(first_val[key][0])[:60]), e["i"]))
     ix.r.setdefault("stats", {})["c01_entries_checked"] = n_checked
     return out
